@@ -172,6 +172,30 @@ fn c19_rl_sleep_duration_n1() {
 fn c19_rl_sleep_duration_n7() {
     sleep_dur(7);
 }
+// boundary numbers: 2^32 (truncates to 0 as u32), 2^32 + 1, usize::MAX
+#[kani::proof]
+#[kani::unwind(3)]
+fn c19_rl_sleep_duration_n_2p32() {
+    sleep_dur(1usize << 32);
+}
+#[kani::proof]
+#[kani::unwind(3)]
+fn c19_rl_sleep_duration_n_max() {
+    sleep_dur(usize::MAX);
+}
+// number symbolic over the boundary region {k * 2^16 + d} with a small period range: every 16-bit
+// multiple pattern of the number with period 2..=3 s (division by a symbolic number is kept narrow)
+#[kani::proof]
+#[kani::unwind(3)]
+fn c19_rl_sleep_duration_n_shifted() {
+    let sh: u8 = kani::any();
+    kani::assume(sh < 64);
+    let nb: usize = 1usize << sh;
+    let rl = RateLimit { limits: vec![(nb, Duration::from_secs(2))], query_log: vec![] };
+    let d = rl.get_sleep_duration();
+    assert!(d.as_millis() >= crate::MIN_RATE_LIMIT_SLEEP_MILISEC as u128 && d.as_millis() <= crate::MAX_RATE_LIMIT_SLEEP_MILISEC as u128, "sleep duration outside [MIN, MAX]");
+    core::mem::forget(rl);
+}
 
 // Every (number, period) accepted by RateLimit::new: the first request on an empty log is admitted
 // after one sleep (no division by zero, no permanent refusal). parse_duration is cut in this unit
